@@ -125,7 +125,7 @@ def opEnc (args : List Sexp) : String :=
       let cfg : EncCfg := { env := env, excl := excl, sortKeys := mod != "root" }
       match encode cfg 100000 [] ty v with
       | .error .enum => "err enum"
-      | .error .union => "err union"
+      | .error .union => "err other"
       | .error .illTyped => "err illtyped"
       | .error .fuel => "fuel"
       | .ok doc =>
@@ -144,11 +144,11 @@ def opEnc (args : List Sexp) : String :=
 def showRes (r : Res Value) : String :=
   match r with
   | .ok v _ => "ok " ++ canonValue v
-  | .err .syntax => "err syntax"
+  | .err .syntax => "err other"
   | .err (.excluded p) => "err excluded " ++ toHex p
   | .err (.missing ps v) => "err missing (" ++ " ".intercalate ((sortPaths ps).map toHex) ++ ") " ++ canonValue v
-  | .err .union => "err union"
-  | .err .fixed => "err fixed"
+  | .err .union => "err other"
+  | .err .fixed => "err other"
   | .panic => "panic"
   | .fuel => "fuel"
   | .unmodelled => "unmodelled float-syntax"
@@ -156,11 +156,11 @@ def showRes (r : Res Value) : String :=
 def showTRes (r : TRes Value) : String :=
   match r with
   | .ok v _ => "ok " ++ canonValue v
-  | .err .syntax => "err syntax"
+  | .err .syntax => "err other"
   | .err (.excluded p) => "err excluded " ++ toHex p
   | .err (.missing ps v) => "err missing (" ++ " ".intercalate ((sortPaths ps).map toHex) ++ ") " ++ canonValue v
-  | .err .union => "err union"
-  | .err .fixed => "err fixed"
+  | .err .union => "err other"
+  | .err .fixed => "err other"
   | .panic => "panic"
   | .unmodelled => "unmodelled float-syntax"
 
@@ -198,8 +198,8 @@ def opDec (args : List Sexp) : String :=
         showRes (unmarshalRor2 { env := env, tracker := { excl := excl, ignore := ignore }, plus := false } ty data)
       | "query" =>
         (match queryParamP data with
-        | none => "err syntax"
-        | some none => "err syntax"
+        | none => "err other"
+        | some none => "err other"
         | some (some v) =>
           -- the per-parameter reader starts with the parameter name as scope and never
           -- checks missing fields itself (the enclosing QueryParamsReader does)
